@@ -115,7 +115,7 @@ def run_case(ctx, c):
                 t1 = safe(ctx, case, "construction", lambda: observe.build(twin.loaded, vals, "ctor"))
                 if t1 is not None:
                     expect(ctx, case, p1, t1, False, "look-alike-class-same-values")
-            if it["raw"] is not None:
+            if it["raw"] is not None and decl.model_parse(fam, it["raw"], 0)[0] == "ok":
                 u1, u2 = live.unpack(it["raw"]), live.unpack(it["raw"])
                 if u1[0] == "ok" and u2[0] == "ok":
                     expect(ctx, case, u1[1], u2[1], True, "same-bytes-parsed-twice")
